@@ -184,6 +184,9 @@ func raftlogCmd(out *cq.Out, seed uint64, tier string) {
 					ops = append(ops, fmt.Sprintf("LSet %s %s", coqB(key), coqB(b)))
 				} else {
 					v := rng.Bytes(8 + rng.Intn(3))
+					if rng.Intn(4) == 0 {
+						v = []byte{} // a setting with an empty value is still a setting
+					}
 					st.Set(key, v)
 					kv[string(key)] = v
 					ops = append(ops, fmt.Sprintf("LSet %s %s", coqB(key), coqB(v)))
@@ -198,8 +201,14 @@ func raftlogCmd(out *cq.Out, seed uint64, tier string) {
 					if !ok || !bytes.Equal(v, want) {
 						fail("kv-get", fmt.Sprintf("Get(%q) = %x, last set %x", key, v, want))
 					}
-					x, err2 := st.GetUint64(key)
-					if err2 != nil || x != uint64(want[0])<<56|uint64(want[1])<<48|uint64(want[2])<<40|uint64(want[3])<<32|uint64(want[4])<<24|uint64(want[5])<<16|uint64(want[6])<<8|uint64(want[7]) {
+					var x uint64
+					var err2 error
+					if len(want) >= 8 {
+						x, err2 = st.GetUint64(key)
+					}
+					if len(want) < 8 {
+						// not a number: only the bytes are specified
+					} else if err2 != nil || x != uint64(want[0])<<56|uint64(want[1])<<48|uint64(want[2])<<40|uint64(want[3])<<32|uint64(want[4])<<24|uint64(want[5])<<16|uint64(want[6])<<8|uint64(want[7]) {
 						fail("kv-get-uint64", fmt.Sprintf("GetUint64(%q) = %d (%v), stored bytes %x", key, x, err2, want))
 					}
 				} else if ok {
